@@ -135,7 +135,12 @@ def check(ck):
     # ---- C10.2 argument validation ------------------------------------------------------------------------
     n2 = 0
     maxes = [(0, None), (-1, None), (1, 1), (3, 3), ("3", 3), ("x", None), (None, None), (2.5, 2), (True, 1)]
-    mins = [(-1, 0), (0, 0), (1, 1), (2, 2), (5, "max"), ("x", None), (None, None), ("2", 2)]
+    mins = [(-1, -1), (0, 0), (1, 1), (2, 2), (5, 5), ("x", None), (None, None), ("2", 2)]
+    if ck.tier == "thorough":
+        maxes += [(2, 2), (10, 10), (1000, 1000), (-100, None), ("0", None), ("-2", None), ("", None), (0.0, None), (0.9, None), (1.0, 1), (1.9, 1),
+                  (7.99, 7), ("1", 1), (" 4 ", 4), ("2.5", None), (False, None), ([], None), ((3,), None)]
+        mins += [(-100, -100), (3, 3), (10, 10), (1000, 1000), ("0", 0), ("-1", -1), (" 1 ", 1), (0.0, 0), (1.5, 1), (2.9, 2), (True, 1), (False, 0),
+                 ("1.5", None), ("", None), ([], None)]
     for (mx, mx_ok) in maxes:
         for (mn, mn_ok) in mins:
             holder = []
@@ -155,7 +160,7 @@ def check(ck):
                                "ThreadPool(%s) %s; the documented behaviour is ValueError" % (desc, "raises " + out[1] if out[0] == "raise" else "is accepted"),
                                q.loc(finit, finit.node))
                 else:
-                    want_min = min(mn_ok if mn_ok != "max" else mx_ok, mx_ok)
+                    want_min = min(max(mn_ok, 0), mx_ok)          # int(min_threads) clamped into [0, max]
                     o = holder[0]
                     got_max = o.attrs.get("_max_threads")
                     got_min = o.attrs.get("_min_threads")
@@ -190,9 +195,10 @@ def check(ck):
 
     # ---- C10.4 start count -------------------------------------------------------------------------------------
     n4 = 0
-    for qs in (0, 1, 2, 5):
-        for mn in (0, 1, 2):
-            for mx in (1, 2, 3):
+    grid = ((0, 1, 2, 5), (0, 1, 2), (1, 2, 3)) if ck.tier != "thorough" else (tuple(range(0, 13)), tuple(range(0, 7)), tuple(range(1, 8)))
+    for qs in grid[0]:
+        for mn in grid[1]:
+            for mx in grid[2]:
                 if mn > mx:
                     continue
                 count = [0]
